@@ -1689,7 +1689,7 @@ def union_operands(v):
 def _key_verdict(k):
     """'ok' for a sort key under which no two different species tie: no key at all (the species' own order), or a function whose
     result is / holds as a tuple component the species itself or its name;  'bad' for a key that is understood and under which
-    different species do tie: every component is a count / table look-up / an attribute other than the name;  else 'unrec'"""
+    different species do tie: every component is a count / an attribute other than the name;  else 'unrec'"""
     if k is None:
         return "ok"
     if k[0] != "lambda" or len(k[1]) != 1:
@@ -1705,8 +1705,8 @@ def _key_verdict(k):
             return True
         if c[0] == "call" and c[1] == ("global", "len") and len(c[2]) == 1:
             return True
-        if c[0] == "sub" or (c[0] == "meth" and c[2] in ("__getitem__", "get", "count")):
-            return True
+        if c[0] == "meth" and c[2] == "count":
+            return True             # (an entry of a look-up table is not: what the table holds is not read here)
         if c[0] == "attr" and c[1] == x and c[2] not in ("name", "_name"):
             return True
         if c[0] == "unop" and c[1] == "USub":
